@@ -10,6 +10,8 @@ FOCUS = "C04"
 def run(ctx):
     q = ctx.tier == "quick"
     ctx.run_tlc("e1", "EBB3LinkMC", "EBB3Link_c04.cfg" if q else "EBB3Link_c04_deep.cfg", coverage=q)
+    # refinement: the impl-shaped machine implements the one-paragraph abstraction (EBB3Abs) under the mapping of EBB3Refine
+    ctx.run_tlc("e1.refines_EBB3Abs", "EBB3Refine", "EBB3Refine.cfg")
     if q:
         c05.g_scripts(ctx, FOCUS, "gen_dead_by_call", "EBB3Link_gen04a.cfg", 2, True)       # all methods; death by disconnect/record_error/reboot/bootload
         c05.g_scripts(ctx, FOCUS, "gen_dead_by_fault", "EBB3Link_gen04b.cfg", 2, True)      # core alphabet; every fault kind at every read/write
